@@ -81,6 +81,13 @@ func cmdCheck(args []string) int {
 				ok = true
 			}
 		}
+		if *tier == "thorough" {
+			for _, p := range h.TProps {
+				if p == prop {
+					ok = true
+				}
+			}
+		}
 		if !ok || (*tier == "quick" && h.Tier != "quick") {
 			continue
 		}
